@@ -322,3 +322,22 @@ impl FragmentAssembler {
       .collect()
   }
 }
+
+// Verification hook: read-only view of the assembly buffers.
+#[cfg(rustdds_verif)]
+impl FragmentAssembler {
+  /// per assembly buffer: (sequence number, buffer length, received bitmap)
+  pub(crate) fn verif_digest(&self) -> Vec<(i64, usize, Vec<bool>)> {
+    self
+      .assembly_buffers
+      .iter()
+      .map(|(sn, ab)| {
+        (
+          i64::from(*sn),
+          ab.buffer_bytes.len(),
+          ab.received_bitmap.iter().collect(),
+        )
+      })
+      .collect()
+  }
+}
